@@ -123,6 +123,7 @@ def sworldWith (blk : String → Nat → Nat → Nat) (st : Strm) (keyMethod : S
   int := .int
   str := .str
   list := .list
+  newList vs := pure (.list vs)
   tuple := .list
   global := sGlobal
   truthy
